@@ -326,16 +326,24 @@ func c16Reentry(r *ev.Run, id string, firstLen time.Duration, secondAt time.Dura
 				set(&firstOK, ms[0].Error == nil && ms[0].Offset == 1000)
 			}()
 			time.Sleep(secondAt)
-			func() {
-				defer func() {
-					if p := recover(); p != nil {
-						set(&refused, true)
-					}
+			// several attempts while the first collection is still running: every one must be refused
+			// (a refusal must not unlock the collector for the next attempt)
+			allRefused := true
+			for attempt := 0; attempt < 3; attempt++ {
+				r1 := false
+				func() {
+					defer func() {
+						if p := recover(); p != nil {
+							r1 = true
+						}
+					}()
+					ms := make([]measurements.Measurement, 1)
+					rc.MeasureClockOffsets(context.Background(), []client.ReferenceClock{
+						&c16Clock{id: 1, at: 0, ignore: true, mu: &mu, calls: &calls, ret: &rets}}, ms)
 				}()
-				ms := make([]measurements.Measurement, 1)
-				rc.MeasureClockOffsets(context.Background(), []client.ReferenceClock{
-					&c16Clock{id: 1, at: 1, ignore: true, mu: &mu, calls: &calls, ret: &rets}}, ms)
-			}()
+				allRefused = allRefused && r1
+			}
+			set(&refused, allRefused)
 			<-done
 			func() {
 				defer func() { recover() }()
